@@ -52,6 +52,20 @@ type replayOutcome struct {
 	Note    string `json:"note,omitempty"`
 }
 
+// deadReturnAllowed: dead_returns.json lists the return sites that are unreachable by design
+func deadReturnAllowed(name string) bool {
+	data, err := os.ReadFile(filepath.Join(verifDir, "dead_returns.json"))
+	if err != nil {
+		return false
+	}
+	var m map[string]string
+	if json.Unmarshal(data, &m) != nil {
+		return false
+	}
+	_, ok := m[name]
+	return ok
+}
+
 func cmdCheck(repo, prop, tier string, relock bool, only string, verbose bool) int {
 	t0 := time.Now()
 	seed := envInt("VERIF_SEED", 0)
@@ -215,6 +229,9 @@ func cmdCheck(repo, prop, tier string, relock bool, only string, verbose bool) i
 				engineErr = true
 			} else if !isLocked {
 				fmt.Fprintf(os.Stderr, "govc: WARNING: %s unreachable\n", r.O.Name)
+				if relock && !deadReturnAllowed(r.O.Name) {
+					gr.errors = append(gr.errors, r.O.Name+": return unreachable under the contracts in force (vacuity); list it in dead_returns.json with the reason if that is intended")
+				}
 			}
 		default:
 			if !isLocked && r.Status == "failed" && r.O.Kind == "requires" {
@@ -234,6 +251,10 @@ func cmdCheck(repo, prop, tier string, relock bool, only string, verbose bool) i
 		if len(samples) < 12 && r.O.Kind != "reach" && r.O.Kind != "presat" {
 			samples = append(samples, map[string]any{"obligation": r.O.Name, "clause": r.O.Clause, "status": r.Status, "solver": r.R.Solver, "smt_sha256_8": r.R.Hash, "time_s": round3(r.R.Time)})
 		}
+	}
+	if relock && len(gr.errors) > 0 {
+		fmt.Fprintf(os.Stderr, "govc: NOT locking %s: %d contract/engine errors above must be fixed first\n", prop, len(gr.errors))
+		os.Exit(2)
 	}
 	if relock {
 		lf[prop] = newLock
